@@ -96,6 +96,11 @@ CHECKS['C17'] = dict(engine='pbt_zones + pbt_coll (in-process property-based tes
          'and an independent octabox overlap test; known finding KF3 (LTR with accumulated x offset) recognised as its own generator class. Exploration level.',
     note='Trusted: oracle geometry in harness/pbt_coll.cpp (reach rule = documented short-circuit). Pass-level policy is outside (property is per fixing step).', ref='5/C17')
 
+CHECKS['C09'] = dict(engine='mt_shape (ThreadSanitizer build)', technique='schedule-perturbed concurrent property-based testing under ThreadSanitizer with a sequential differential oracle and a table-callback counter',
+    text='Generated multi-threaded workloads (2..8 threads, shared cold preloadAll face and shared font, barrier start, seeded yield/spin perturbation) run under ThreadSanitizer; any race report, any '
+         'table callback after construction, or any difference from the single-threaded segment is a violation. Exploration of schedules (sampled, not enumerated).',
+    note='Trusted: ThreadSanitizer happens-before detection over instrumented library + harness code; races inside uninstrumented libc calls would be missed.', ref='5/C09')
+
 NOT_YET = {'C09': 'check not built yet in this session (TSan harness planned, DESIGN 5/C09); the technique applies at exploration level'}
 
 def main():
